@@ -4,6 +4,7 @@ import GoguVerif.Kinds.Heap
 import GoguVerif.Kinds.Trees
 import GoguVerif.Kinds.Lists
 import GoguVerif.Kinds.Cache
+import GoguVerif.Kinds.Funcs
 /-!
 # The compiled driver
 
@@ -29,6 +30,10 @@ def kindOf (name : String) : Option Kind :=
   | "btree" => some Kinds.BTree.kind
   | "trie" => some Kinds.Trie.kind
   | "lru" => some Kinds.Lru.kind
+  | "after" => some Kinds.Funcs.afterKind
+  | "before" => some Kinds.Funcs.beforeKind
+  | "once" => some Kinds.Funcs.onceKind
+  | "retry" => some Kinds.Funcs.retryKind
   | "cache" => some Kinds.Cache.kind
   | "slist" => some (Kinds.Lists.kindFor false)
   | "dlist" => some (Kinds.Lists.kindFor true)
